@@ -164,3 +164,26 @@ Theorem C12_userinfo_set_is_whatwg :
   forall b, b < 128 -> in_userinfo_set b = whatwg_userinfo_encode b.
 Proof. exact userinfo_set_is_whatwg. Qed.
 Print Assumptions C12_userinfo_set_is_whatwg.
+
+(* ------------------------------------------------------------------ facts of the URL scanner used by
+   C14's url tie: UTF-8 decode/encode round trip; the prefix rewritten by the normaliser holds no '?' *)
+From Adb Require Import Base BaseProofs Generated Hashing Net_Model Net_Proofs Engine_Model Engine_Proofs Tok_Proofs Tok_Ext_Model Tok_Ext_Proofs C14_Relevant_Model C14_Relevant_Proofs C14_UrlTie_Model C14_UrlTie_Proofs.
+From Adb Require C03_Model C12_Model C13_Model C14_Model.
+
+Theorem C12_utf8_round_trip :
+  forall (s : str) (l : list N), C12_Model.decode_utf8 s = Some l -> C12_Model.encode_all l = s.
+Proof. exact Scan.decode_encode. Qed.
+Print Assumptions C12_utf8_round_trip.
+
+Theorem C12_scan_copies_from_first_qmark :
+  forall (idna : str -> option str) (u ser : str) (se hs he : nat),
+  C12_Model.scan idna u = Ok (C12_Model.POk (ser, se, hs, he)) ->
+  (hs < he)%nat ->
+  exists A B C scheme P : list N,
+    u = A ++ B ++ C /\
+    ~ In C12_Model.QMARK A /\
+    forallb (fun c : N => (c <=? 32)%N) C = true /\
+    ser = scheme ++ C12_Model.COLON :: P ++ B /\ se = length scheme /\ scheme <> [].
+Proof. exact Scan.scan_shape. Qed.
+Print Assumptions C12_scan_copies_from_first_qmark.
+
